@@ -97,7 +97,7 @@ impl PushInterpreter {
             if PushInterpreter::step(push_state, instruction_set, &icache) {
                 break;
             }
-            if push_state.size() > size_before_step + push_state.configuration.growth_cap as usize {
+            if push_state.size() > size_before_step.saturating_add(push_state.configuration.growth_cap) {
                 return PushInterpreterState::GrowthCapExceeded;
             }
             step_counter += 1;
